@@ -282,6 +282,7 @@ static void setup_vm(VM& vm, const J& cmd)
 
 // ---------------------------------------------------------------- helpers
 static J value_json(const rt::value& v, int depth = 0);
+static J listing_deep(const rt::instruction_set& set);
 
 static std::string float_bits(float f) { uint32_t u; memcpy(&u, &f, 4); char b[16]; snprintf(b, sizeof b, "%08x", u); return b; }
 
@@ -304,9 +305,7 @@ static J value_json(const rt::value& v, int depth)
     }
     else if (auto c = v.data_try<sqf::types::d_code>())
     {
-        J arr = J::arr();
-        for (auto& i : c->value()) arr.push(i->to_string());
-        o.set("v", arr);
+        o.set("v", listing_deep(c->value()));
     }
     else if (auto h = v.data_try<sqf::types::d_hashmap>())
     {
